@@ -395,6 +395,47 @@ def consumer_resume_cases(chk):
                  "the consumer must still see the records in the order sent", [dict(queued=2, direction="s2r")], viol)
 
 
+def long_lived_cases(chk):
+    """time passes on an established connection (more than the handshake TIMEOUT, at every point between two records): a faithful
+    stream is still delivered whole and in order, nothing drops the connection"""
+    from wormhole import transit as _t
+    viol = []
+    keys = set()
+    n = 0
+    records = [rec(i, 5 + i) for i in range(3)]
+    for direction in ("s2r", "r2s"):
+        for mode in ("waiting", "consumer"):
+            for k in range(len(records) + 1):
+                n += 1
+                w, src, dst, link, to_side, stream, bounds = build(records, direction)
+                reader = Reader(dst, mode, len(records), sum(len(r) for r in records))
+                for i, (a, b) in enumerate(bounds):
+                    if i == k:
+                        for r in (w.rs, w.rr):
+                            CTX.world = w
+                            r.advance(_t.TIMEOUT + 1)
+                            r.advance(_t.TIMEOUT + 1)
+                    if not dst.transport.closed and not dst.transport.disconnecting:
+                        feed(w, link, to_side, dst, stream[a:b])
+                if k == len(records):
+                    for r in (w.rs, w.rr):
+                        CTX.world = w
+                        r.advance(_t.TIMEOUT + 1)
+                got = reader.delivered()
+                exp = b"".join(records) if mode == "consumer" else records
+                dropped = [c.transport.disconnecting or c.transport.closed for c in (src, dst)]
+                keys.add((direction, mode, k, got == exp, tuple(dropped)))
+                if got != exp or any(dropped) or (mode == "consumer" and reader.consumer_result != [("ok", len(exp))]):
+                    viol.append(dict(oracle="exact-records", sig="idle-time:%s" % mode,
+                                     msg="%s, %s reader: %.0f s pass before record %d of a faithful stream: delivered %r of %d records, connection dropped by %s" % (
+                                         direction, mode, _t.TIMEOUT + 1, k, (len(got) if mode != "consumer" else len(got)), len(records),
+                                         [("sender", "receiver")[i] for i, d in enumerate(dropped) if d] or "nobody"),
+                                     case=dict(direction=direction, mode=mode, k=k)))
+    chk.add_enum("long-lived-connection", n, keys, "on an established connection more than transit.TIMEOUT seconds pass (all due timers of both "
+                 "parties fire) before record k, k = 0..3, both directions, receive_record and consumer modes: the faithful stream is still "
+                 "delivered and the connection stays up", [dict(direction="s2r", mode="waiting", k=1)], viol)
+
+
 def run(chk):
     chk.assumptions += [
         "the two Connections are obtained by running the real handshake over the simulated network (W2)",
@@ -408,6 +449,7 @@ def run(chk):
         chk.add_result(res)
     if not getattr(chk, "only", None):
         consumer_resume_cases(chk)
+        long_lived_cases(chk)
         enumerate_manipulations(chk)
 
 
